@@ -19,7 +19,9 @@ Formalisation choices (the descriptions are silent; the reading the code impleme
   transitivity, see `Props/C20.lean`); when the first argument is a string every later argument that
   is not a string counts as the empty string; when it is a number a later non-number is an error;
 * `equal` compares every argument with the first; numbers compare by value across int/float, arrays
-  element-wise, maps member-wise; a jp.Expr value equals nothing;
+  element-wise (same length), maps by the SAME KEY SET with equal values under each key (same number of
+  members and every key of the one present in the other: an absent key is not a null member); a
+  jp.Expr value equals nothing;
 * `cond`: a condition that is not the boolean `true` counts as false;
 * `each` (its description is just "Each ."): for every element `e` of the array, in order, the
   function is evaluated with the local data `{src: e}`; the results are the members named by the
@@ -128,7 +130,8 @@ def cmp (dev : Dev) (op : CmpOp) : List Val → R
     | some x => numChain dev op x r
     | none => raise
 
-/-- `equal`: every argument equals the first (`eqVals`: by value, structurally) -/
+/-- `equal`: every argument equals the first (`eqVals`: by value, structurally; two maps are equal when
+they have the same key set and equal values under each key — `Props/C20.lean`, `equal_maps_same_keys`) -/
 def equalTo (dev : Dev) (h : Heap) (v0 : Val) : List Val → Except Stop Bool
   | [] => .ok true
   | v :: r =>
